@@ -83,7 +83,7 @@ func cmdCheck(args []string) int {
 	workers := fs.Int("workers", 16, "workers")
 	debug := fs.Bool("debug", false, "engine errors crash with a stack")
 	trace := fs.Bool("trace", false, "trace blocks")
-	solver := fs.String("solver", "z3", "z3|z3-new|cvc5")
+	solver := fs.String("solver", "z3-new", "z3|z3-new|cvc5")
 	noReplay := fs.Bool("no-replay", false, "skip native replay")
 	caseFilter := fs.String("case", "", "run only cases whose label contains this")
 	budget := fs.Int("budget", 0, "seconds (0: per tier default)")
@@ -393,7 +393,7 @@ func cmdCheck(args []string) int {
 		"engine: single logical thread; atomics are plain accesses; mutexes detect self-deadlock only",
 		"engine: heap shape concrete, symbolic lengths/indices concretised by forking up to the stated caps (exceeding a cap is reported as inconclusive)",
 		"engine: float arithmetic (+,-,*,/ and math.Log etc.) uninterpreted unless stated; float comparisons/conversions exact (SMT FloatingPoint)",
-		"trusted: go/ssa translation of Go to SSA, z3 4.8.12",
+		"trusted: go/ssa translation of Go to SSA, the SMT solver (z3 5.1.0 as z3-new by default; z3 4.8.12 via -solver z3)",
 	)
 	var repoFuncs, depFuncs []string
 	for _, k := range exec.SortedKeys(stats.Funcs) {
